@@ -790,7 +790,8 @@ def _build():
 # E[x^2] - mean^2) is only visible when the values are far from zero compared
 # with their spread.  Every accumulator whose result is a numeric statistic is
 # therefore listed a second time over rows offset + {0, 1, 3} (offset 1e8) and
-# offset + {0, 2, 5} (offset 1.7e9, epoch seconds), 2-D with a large-offset
+# offset + {0.1, 2.7, 5.3} (offset 1.7e9, epoch seconds; not dyadic, so sums
+# do round), 2-D with a large-offset
 # column next to a small column and NaN entries and a negative offset.
 #
 # Tolerances: what a numerically sane implementation meets, measured on the
@@ -800,9 +801,11 @@ def _build():
 
 OFF_A = 1e8
 OFF_B = 1.7e9
-# mean of values ~1e8..1.7e9: a few ulp (observed <= 2.9e-16 relative)
+# mean of values ~1e8..1.7e9: observed <= 2.0e-16 relative to the mean
 TOL_MEAN = (1e-13, 0.0)
-# var of values with spread ~1 at 1e8 / ~2 at 1.7e9 (observed: see c01 notes)
+# var: observed <= 9.93e-8 relative to the one-batch var (column -3e8 + {0,
+# 0.3}: var 0.0225, ulp of the values 6e-8); where the one-batch var is 0 up
+# to rounding (equal rows) observed <= 5.7e-14 absolute (= ulp(1.7e9)^2).
 TOL_VAR = (1e-5, 1e-9)
 TOL_EXACT = (0.0, 0.0)
 
@@ -825,9 +828,9 @@ def _build_offset():
     return lambda: factory().as_agg_fn()
 
   a1 = (OFF_A, OFF_A + 1.0, OFF_A + 3.0)
-  b1 = (OFF_B, OFF_B + 2.0, OFF_B + 5.0)
+  b1 = (OFF_B + 0.1, OFF_B + 2.7, OFF_B + 5.3)   # not dyadic: sums do round
   # large-offset column | small column with NaN | negative offset with NaN
-  mixed = ((OFF_A, 1.0, -3e8), (OFF_A + 1.0, NAN, -3e8 + 0.5),
+  mixed = ((OFF_A, 1.0, -3e8), (OFF_A + 1.0, NAN, -3e8 + 0.3),
            (OFF_A + 3.0, 5.0, NAN))
   mv_tol = {'mean': TOL_MEAN, 'var': TOL_VAR, 'count': TOL_EXACT}
   for cls, canon in (('Mean', _canon_mean), ('MeanAndVariance', _canon_mv),
